@@ -444,6 +444,26 @@ Definition drop_empty (evs : list ev) : list ev :=
   filter (fun e => match e with Txt [] => false | _ => true end) evs.
 Definition nview (evs : list ev) : list ev := drop_empty (merge_adj (decode evs)).
 
+(* the readable text between the element carrying attribute id [a1] (its own subtree skipped) and the next element
+   carrying [a2]: what a start / end pair of marks encloses; [None] when the end mark does not follow *)
+Fixpoint until_attr (a2 : nat) (evs : list ev) : option (list ev) :=
+  match evs with
+  | [] => None
+  | Open k a :: r => if Nat.eqb a a2 then Some [] else option_map (cons (Open k a)) (until_attr a2 r)
+  | e :: r => option_map (cons e) (until_attr a2 r)
+  end.
+Fixpoint after_attr (a1 : nat) (evs : list ev) : option (list ev) :=
+  match evs with
+  | [] => None
+  | Open k a :: r => if Nat.eqb a a1 then Some (skip_elem 0 r) else after_attr a1 r
+  | _ :: r => after_attr a1 r
+  end.
+Definition text_between (a1 a2 : nat) (evs : list ev) : option str :=
+  match after_attr a1 evs with
+  | Some r => option_map readable_ev (until_attr a2 r)
+  | None => None
+  end.
+
 Inductive op :=
 | OWrapOff (k : kind) (a : nat) (off len : Z)                     (* set_span / set_link (offset=, length=) *)
 | OWrapRe (k : kind) (a : nat) (spans : list (list (nat * nat)))  (* set_span / set_link (regex=) *)
@@ -466,3 +486,37 @@ Definition step (o : op) (n : node) : option (list ev) :=
   | OStripElems => option_map content (strip_elements_ n)
   | OSame => Some c
   end.
+
+(* ------------------------------------------------------------------ replace(formatted=True), PINNED code (before fixes/F27) *)
+(* kept for the refutation C16_formatted_pinned_refuted.  The pinned loop re-normalises the container of every text
+   node AT ONCE (append_plain_text("") rebuilds the children: text:s elements are dropped and recreated, so later text
+   nodes whose container was a dropped text:s are written to a detached element) and, for a tail, re-normalises the
+   element that OWNS the tail, not the parent.  Node identity is needed: in this model the [a] field of every element
+   must be a unique non-zero identifier (new white-space elements get 0). *)
+Definition attr_of (n : node) : nat := match n with Node _ a _ _ _ _ => a end.
+Fixpoint refs (n : node) : list (nat * bool * str) :=          (* descendant::text() with its container *)
+  match n with
+  | Node _ a _ tx ks _ =>
+      (match tx with Some s => [(a, true, s)] | None => [] end)
+      ++ flat_map (fun c => refs c ++ match tail_of c with Some s => [(attr_of c, false, s)] | None => [] end) ks
+  end.
+Fixpoint write_at (id : nat) (is_text : bool) (s : str) (n : node) : node :=
+  match n with
+  | Node k a sel tx ks tl =>
+      let ks' := map (fun c => let c' := write_at id is_text s c in
+                               if Nat.eqb (attr_of c) id && negb is_text then set_tail c' (Some s) else c') ks in
+      Node k a sel (if Nat.eqb a id && is_text then Some s else tx) ks' tl
+  end.
+Fixpoint norm_at (id : nat) (n : node) : node :=
+  match n with
+  | Node k a sel tx ks tl =>
+      let n' := Node k a sel tx (map (norm_at id) ks) tl in
+      if Nat.eqb a id && container k then normalise n' else n'
+  end.
+Section ReplPinned.
+  Variable subn : str -> str * nat.
+  Definition repl_pinned (n : node) : node * nat :=
+    fold_left (fun st r => let '(t, cnt) := st in let '(id, is_text, s) := r in
+                           (norm_at id (write_at id is_text (fst (subn s)) t), cnt + snd (subn s)))
+              (refs n) (n, 0).
+End ReplPinned.
